@@ -23,3 +23,28 @@ Proof.
   - intros H. lia.
 Qed.
 Print Assumptions c10_clamp_exact_and_monotone.
+
+From CCTZ Require Import Base Cal CivilImpl PosixImpl FixedImpl ZoneLoad ZoneImpl ZoneZ ZoneHist ZoneRefineDefs ZoneRefine.
+
+(* exact saturation: the implementation-level MakeTime returns the integer-level
+   answer clamped to the time_point range - never a wrapped value *)
+(* civil -> instant: the integer-level answer, clamped to the time_point range *)
+Definition clamp (v : Z) : Z := Z.max min64 (Z.min max64 v).
+Definition kind_of (k : zkind) : ckind := match k with ZU => UNIQUE | ZS => SKIPPED | ZR => REPEATED end.
+
+Theorem c10_make_saturates : forall z h cs, zone_ok z = true -> valid_fields cs = true -> int64 (fy cs) ->
+  (z_extended z = false \/ fy cs <= z_last_year z) ->
+  exists h',
+    let c := zmake (abs_zone z) (sec_of cs) in
+    make_time z h cs = OK (mkCL (kind_of (zk c)) (clamp (zpre c)) (clamp (ztrans c)) (clamp (zpost c)), h').
+Proof. exact make_refines_lemma. Qed.
+Print Assumptions c10_make_saturates.
+
+(* instant -> civil, table region (every t when the zone is not extended) *)
+Theorem c10_break_total : forall z h t, zone_ok z = true -> int64 t ->
+  (z_extended z = false \/ (forall l, last_opt (z_trans z) = Some l -> t < tr_time l)) ->
+  exists h' dst ab,
+    break_time z h t = OK (mkAL (civil_of_seconds (t + zoff (abs_zone z) t)) (zoff (abs_zone z) t) dst ab, h')
+    /\ info_of z (zid (abs_zone z) t) = OK (dst, ab).
+Proof. exact break_refines_lemma. Qed.
+Print Assumptions c10_break_total.
